@@ -49,6 +49,7 @@ func runC14(c *Ctx, pr *PropertyRun) {
 	decodePropTable(c, pr, "C14")
 	// "returns without hanging": the streamed upload (shared with C18.upload)
 	c18Upload(c, pr, "C14")
+	boundedBodyRule(c, pr, "C14")
 	// per-response holders are fresh (a tolerated 404 leaves the zero value)
 	freshHolderRule(c, pr, "C14")
 	statusBeforeToleranceRule(c, pr, "C14")
@@ -916,4 +917,127 @@ func c14SyncTable(c *Ctx, r *RuleResult, run func(DTXSpec, int)) {
 			}
 			return []string{"updated=[" + strings.Join(upd, " ") + "] deleted=[" + strings.Join(del, " ") + "]"}, true
 		}}, 8)
+}
+
+// boundedBodyRule: "clients survive any response" — a peer may send a body
+// that never ends. Outside the decoders, the library reads a response body to
+// its end only through a bounded reader: never inside the status gate
+// (internal.Client.Do hands a successful response on unread, so whatever it
+// reads itself is an error body), and never to throw it away.
+func boundedBodyRule(c *Ctx, pr *PropertyRun, prop string) {
+	p := c.P
+	r := NewRule(prop, prop+".bounded-body", "no unbounded read-to-EOF of an http.Response body in the status gate, and none anywhere that discards what it reads (E4)")
+	pr.Rules = append(pr.Rules, r)
+	isBody := func(v ssa.Value) bool {
+		for i := 0; i < 4; i++ {
+			switch x := v.(type) {
+			case *ssa.MakeInterface:
+				v = x.X
+				continue
+			case *ssa.ChangeInterface:
+				v = x.X
+				continue
+			case *ssa.UnOp:
+				if fa, ok := x.X.(*ssa.FieldAddr); ok && x.Op == token.MUL {
+					if pt, ok := fa.X.Type().Underlying().(*types.Pointer); ok {
+						if n := namedOf(pt.Elem()); n != nil && n.Obj().Pkg() != nil && n.Obj().Pkg().Path() == "net/http" && n.Obj().Name() == "Response" && fieldName(fa.X.Type(), fa.Field) == "Body" {
+							return true
+						}
+					}
+				}
+			}
+			return false
+		}
+		return false
+	}
+	isDiscard := func(v ssa.Value) bool {
+		for i := 0; i < 3; i++ {
+			switch x := v.(type) {
+			case *ssa.MakeInterface:
+				v = x.X
+				continue
+			case *ssa.UnOp:
+				if g, ok := x.X.(*ssa.Global); ok && g.Name() == "Discard" {
+					return true
+				}
+			}
+			return false
+		}
+		return false
+	}
+	gate := p.Func(pkgInternal, "(*Client).Do")
+	// the gate and the helpers it hands the response to
+	inGate := map[*ssa.Function]bool{}
+	var addGate func(f *ssa.Function, d int)
+	addGate = func(f *ssa.Function, d int) {
+		if f == nil || inGate[f] || d > 2 {
+			return
+		}
+		inGate[f] = true
+		eachCall(f, func(site ssa.CallInstruction) {
+			g := site.Common().StaticCallee()
+			if g == nil || !inLib(g) || len(g.Blocks) == 0 {
+				return
+			}
+			for _, a := range site.Common().Args {
+				if pt, ok := a.Type().(*types.Pointer); ok {
+					if n := namedOf(pt.Elem()); n != nil && n.Obj().Pkg() != nil && n.Obj().Pkg().Path() == "net/http" && n.Obj().Name() == "Response" {
+						addGate(g, d+1)
+					}
+				}
+			}
+		})
+	}
+	addGate(gate, 0)
+	for _, fn := range p.ModFns {
+		if !inLib(fn) || len(fn.Blocks) == 0 {
+			continue
+		}
+		root := fn
+		for root.Parent() != nil {
+			root = root.Parent()
+		}
+		eachCall(fn, func(site ssa.CallInstruction) {
+			cc := site.Common()
+			n := calleeName(cc)
+			src := -1
+			switch n {
+			case "io.Copy", "io.CopyBuffer":
+				src = 1
+			case "io.ReadAll", "io/ioutil.ReadAll":
+				src = 0
+			}
+			if src < 0 || src >= len(cc.Args) || !isBody(cc.Args[src]) {
+				return
+			}
+			r.Role("whole-body-read")
+			discard := (n == "io.Copy" || n == "io.CopyBuffer") && isDiscard(cc.Args[0])
+			ok := !(discard || inGate[root])
+			r.Ob(ok)
+			if !ok {
+				r.Violation("unbounded-body|"+fnKey(root)+"|"+n, p.instrPos(site), fmt.Sprintf("%s reads a response body to its end with %s and no bound (%s): a peer that keeps sending never lets the call return, although the status was known long before", fnKey(fn), n, map[bool]string{true: "what is read is thrown away", false: "inside the status gate, on the path of a failed request"}[discard]), nil)
+			}
+		})
+	}
+	// the bounded read that exists today keeps the rule alive
+	if gate != nil {
+		lim := false
+		for g := range inGate {
+			eachInstr(g, func(_ *ssa.BasicBlock, in ssa.Instruction) {
+				if al, ok := in.(*ssa.Alloc); ok {
+					if n := namedOf(al.Type().(*types.Pointer).Elem()); n != nil && n.Obj().Name() == "LimitedReader" {
+						lim = true
+					}
+				}
+				if call, ok := in.(*ssa.Call); ok && calleeName(call.Common()) == "io.LimitReader" {
+					lim = true
+				}
+			})
+		}
+		if lim {
+			r.Role("bounded-read-in-gate")
+			r.Ob(true)
+		}
+	}
+	r.RequireRole("bounded-read-in-gate")
 }
